@@ -243,7 +243,7 @@ class Gen:
 
     def off(self):
         r = self.r
-        return r.choice([0, 0, 1, 3, 7, 10, 20, 33, 64, r.randint(0, 90)])
+        return r.choice([0, 0, 0, 1, 2, 3, 5, 8, 13, 20, 33, 64, r.randint(0, 45)])
 
     def emit(self, toks):
         self.out += toks
@@ -262,21 +262,44 @@ class Gen:
         return self.r.randrange(NSLOTS)
 
     # -- operations -----------------------------------------------------
+    def exists(self, p):
+        p = tuple(p)
+        return p in self.files or p in self.dirs or p in self.links
+
+    def parent_ok(self, p):
+        p = tuple(p)
+        return len(p) == 1 or p[:-1] in self.dirs
+
     def op_open(self, seq=None):
         r = self.r
         slot = r.randrange(NSLOTS)
+        if len(self.slots) < 2:
+            free = [s for s in range(NSLOTS) if s not in self.slots]
+            slot = r.choice(free)
         if seq is None:
             seq = 1 if r.random() < 0.25 else 0
         if self.adv and r.random() < 0.5:
             bits = r.randrange(64)
         else:
-            bits = r.choice([1, 3, 3, 3, 19, 19, 27, 18, 26, 35, 7, 23, 2, 11, 51])
-        p = self.some(self.files) if (bits & 48) == 0 or r.random() < 0.3 else self.any_path()
+            bits = r.choice([1, 3, 3, 3, 3, 19, 19, 27, 18, 26, 35, 7, 7, 23, 2, 11, 51])
+        creating = (bits & 48) != 0 and (bits & 2) != 0
+        if creating and r.random() < 0.6:
+            p = tuple(self.any_path())
+        elif self.files and r.random() < 0.93:
+            p = r.choice(sorted(self.files))
+        else:
+            p = tuple(self.some(self.dirs | self.links))
         self.emit([1, slot] + enc_path(p) + [bits, seq])
-        if (bits & 3) and ((bits & 48) and (bits & 2) or p in self.files):
+        valid = (bits & 3) != 0 and ((bits & 2) != 0 or (bits & 56) == 0)
+        ok = False
+        if valid:
+            if p in self.files:
+                ok = not (bits & 32)
+            elif creating and not self.exists(p) and self.parent_ok(p):
+                ok = True
+                self.files.add(p)
+        if ok:
             self.slots[slot] = "seq" if seq else "pos"
-            if bits & 48 and bits & 2:
-                self.files.add(tuple(p))
         else:
             self.slots.pop(slot, None)
 
@@ -287,6 +310,8 @@ class Gen:
             return self.op_open()
         if x < 0.10:
             return self.op_open()
+        if 0.13 <= x < 0.54 and not any(k == "pos" for k in self.slots.values()) and r.random() < 0.8:
+            return self.op_open(seq=0)
         if x < 0.13:
             s = r.randrange(NSLOTS)
             self.slots.pop(s, None)
@@ -308,13 +333,15 @@ class Gen:
         if x < 0.57:
             return self.emit([10] + enc_path(self.some(self.files | self.dirs | self.links)) + [r.randrange(2)])
         if x < 0.60:
-            p = self.any_path()
-            self.dirs.add(tuple(p))
+            p = tuple(self.any_path())
+            if not self.exists(p) and self.parent_ok(p):
+                self.dirs.add(p)
             return self.emit([11] + enc_path(p))
         if x < 0.62:
             p = tuple((self.name(), self.name(), self.name())[:r.randint(1, 3)])
-            for i in range(1, len(p) + 1):
-                self.dirs.add(p[:i])
+            if not any(p[:i] in self.files or p[:i] in self.links for i in range(1, len(p) + 1)):
+                for i in range(1, len(p) + 1):
+                    self.dirs.add(p[:i])
             return self.emit([12] + enc_path(p))
         if x < 0.64:
             p = self.some(self.files | self.links)
@@ -322,26 +349,35 @@ class Gen:
             self.links.discard(tuple(p))
             return self.emit([13] + enc_path(p))
         if x < 0.655:
-            p = self.some(self.dirs)
-            self.dirs.discard(tuple(p))
+            p = tuple(self.some(self.dirs))
+            if not any(q[:len(p)] == p and q != p for q in self.files | self.dirs | self.links):
+                self.dirs.discard(p)
             return self.emit([14] + enc_path(p))
         if x < 0.69:
-            a = self.some(self.files | self.dirs | self.links)
-            b = self.any_path() if r.random() < 0.6 else self.some(self.files | self.dirs)
-            for s in (self.files, self.dirs, self.links):
-                if tuple(a) in s:
-                    s.discard(tuple(a))
-                    s.add(tuple(b))
+            a = tuple(self.some(self.files | self.dirs | self.links))
+            b = tuple(self.any_path() if r.random() < 0.6 else self.some(self.files | self.dirs))
+            if a != b and self.exists(a) and self.parent_ok(b) and b[:len(a)] != a and not (
+                    b in self.dirs and (a not in self.dirs or any(q[:len(b)] == b and q != b
+                                                                  for q in self.files | self.dirs | self.links))):
+                for s_ in (self.files, self.dirs, self.links):
+                    s_.discard(b)
+                for s_ in (self.files, self.dirs, self.links):
+                    moved = [q for q in s_ if q[:len(a)] == a]
+                    for q in moved:
+                        s_.discard(q)
+                        s_.add(b + q[len(a):])
             return self.emit([15] + enc_path(a) + enc_path(b))
         if x < 0.71:
-            a = self.some(self.files)
-            b = self.any_path()
-            self.files.add(tuple(b))
+            a = tuple(self.some(self.files))
+            b = tuple(self.any_path())
+            if a in self.files and not self.exists(b) and self.parent_ok(b):
+                self.files.add(b)
             return self.emit([16] + enc_path(a) + enc_path(b))
         if x < 0.735:
             a = self.some(self.files | self.dirs) if r.random() < 0.8 else self.any_path()
-            b = self.any_path()
-            self.links.add(tuple(b))
+            b = tuple(self.any_path())
+            if not self.exists(b) and self.parent_ok(b):
+                self.links.add(b)
             return self.emit([17] + enc_path(a) + enc_path(b))
         if x < 0.75:
             return self.emit([18] + enc_path(self.some(self.files)) + [r.randrange(2)])
@@ -357,35 +393,64 @@ class Gen:
             return self.emit([21, self.seq_slot()] + self.rvec())
         if x < 0.86:
             return self.emit([22, self.seq_slot()] + self.wvec())
-        if x < 0.985:
+        if x < 0.97:
             return self.pipe_step()
-        if x < 0.993:
-            p = self.any_path()
+        if x < 0.988:
+            p = tuple(self.any_path())
             d = self.data(30)
-            self.files.add(tuple(p))
+            if p not in self.dirs and p not in self.links and self.parent_ok(p):
+                self.files.add(p)
             return self.emit([31] + enc_path(p) + [len(d)] + d)
-        if x < 0.998:
+        if x < 0.995:
             return self.emit([32] + enc_path(self.some(self.files)))
         return self.emit([30, self.pos_slot(), r.choice([0, 2, 5]), r.choice([1, 5, 8])])
 
+    @staticmethod
+    def wwin(w):
+        shape, _, a, b, n = w[:5]
+        return {0: n, 1: n - a, 2: min(b, n) - a}.get(shape, 0)
+
+    @staticmethod
+    def rwin(rb):
+        shape, ln, cap, a, b = rb
+        return {0: cap, 1: cap - a, 2: min(b, cap) - a}.get(shape, cap - ln)
+
     def pipe_step(self):
         r = self.r
-        if not self.pipes or r.random() < 0.08:
+        live = [p for p, st in self.pipes.items() if st[2]]
+        if not live or r.random() < 0.05:
             p = r.randrange(NPIPES)
             self.pipes[p] = [0, True, True]
             return self.emit([23, p])
-        p = r.choice(sorted(self.pipes))
+        p = r.choice(live)
         st = self.pipes[p]
         x = r.random()
-        if x < 0.35:
-            w = self.wbuf()
-            return self.emit([24, p] + w)
-        if x < 0.70:
-            return self.emit([25, p] + self.rbuf())
-        if x < 0.80:
-            return self.emit([26, p] + self.rvec())
-        if x < 0.90:
-            return self.emit([27, p] + self.wvec())
+        can_read = st[0] > 0 or not st[1]
+        if st[1] and (x < 0.30 or (not can_read and x < 0.85)):
+            if r.random() < 0.75:
+                w = self.wbuf()
+                n = self.wwin(w)
+                if st[0] + n <= 4096:
+                    st[0] += n
+                return self.emit([24, p] + w)
+            wv = self.wvec()
+            n, i = 0, 1
+            for _ in range(wv[0]):
+                n += wv[i + 1]
+                i += 2 + wv[i + 1]
+            if st[0] + n <= 4096:
+                st[0] += n
+            return self.emit([27, p] + wv)
+        if x < 0.88:
+            if r.random() < 0.7:
+                rb = self.rbuf()
+                if can_read:
+                    st[0] -= min(st[0], self.rwin(rb))
+                return self.emit([25, p] + rb)
+            rv = self.rvec()
+            if can_read:
+                st[0] -= min(st[0], sum(rv[2::2]))
+            return self.emit([26, p] + rv)
         if x < 0.96:
             st[1] = False
             return self.emit([28, p])
@@ -402,8 +467,11 @@ def one_case(rng, adversarial):
         g.emit([11] + enc_path(sorted(g.dirs)[0]))
     if rng.random() < 0.8:
         p = (g.name(),)
+        while p in g.dirs and rng.random() < 0.9:
+            p = (g.name(),)
         d = g.data(40)
-        g.files.add(p)
+        if p not in g.dirs:
+            g.files.add(p)
         g.emit([31] + enc_path(p) + [len(d)] + d)
     while g.n < target:
         g.step()
